@@ -269,7 +269,7 @@ def check(case):
             require(target in F and target not in rules, lambda: "%s has no mapping but is not shipped as a file" % target)
         else:
             require(target in rules, lambda: "%s has to be generated but the Makefile has no rule for it" % target)
-            require(rules[target] == [d + "/trans." + lab, dirof[m[0]] + "/CONTCAR"],
+            require(sorted(rules[target]) == sorted([d + "/trans." + lab, dirof[m[0]] + "/CONTCAR"]),
                     lambda: "rule for %s has prerequisites %s, expected the transformation file and the CONTCAR of state %r (%s)" % (target, rules[target], m[0], dirof[m[0]]))
     require(set(rules) <= set(d + "/POSCAR." + lab for (_, d, _, lab, _, _) in endpoints), "Makefile has rules for unknown targets")
 
